@@ -36,6 +36,36 @@ CHECKS = {
             "Randomised exploration of files and exhaustive enumeration of the 2^6 option vectors per file; every delivered point is compared with an independently written model of the documented function.",
             "Trusted: the reference model's reading of the rustdoc; aspects the documentation leaves open are accepted in both readings (listed in evidence.assumptions).",
             "DESIGN.md section 5 C05"),
+    "C07": ("fault_enumeration",
+            "fault enumeration + property-based testing: every single-bit flip of every page of generated files, sampled multi-bit/burst/overwrite corruptions, oracle = 'Err or baseline' per read operation with ground truth from an independent bit-serial CRC-32C; differential between the two CRC backends",
+            "Exhaustive over single-bit corruptions of every page of the enumerated files, sampled beyond; both cargo feature settings compared through a digest of files and verdicts.",
+            "Trusted: e57ref's bit-serial CRC-32C (self-tested on the standard check value); E57Reader::header() is outside the statement.",
+            "DESIGN.md section 5 C07"),
+    "C15": ("fault_enumeration",
+            "crash-point enumeration over generated writer programs: all prefixes of the device write sequence x torn-write cut positions, invariant against the completed file",
+            "For each generated program every crash prefix and a dense (thorough: complete) set of cut positions inside each write is materialised and handed to the reader.",
+            "Assumes writes reach the device in issue order and a torn write persists a prefix of the operation.",
+            "DESIGN.md section 5 C15"),
+    "C16": ("fault_enumeration",
+            "fault injection enumeration over generated programs: one hard device error at every operation index (writer and reader side), plus generated short-transfer schedules with a byte-identity oracle",
+            "Exhaustive over the position of a single injected device error for each generated writer and reader program; sampled chunking schedules.",
+            "In-memory device model; faults that fire inside Drop cannot be reported by any call and are counted only.",
+            "DESIGN.md section 5 C16"),
+    "C17": ("exploration",
+            "stateful property-based testing: generated read-operation histories on one reader (with damaged files), oracle = same operation on a freshly opened reader",
+            "Randomised exploration of operation sequences with early termination over intact and damaged files.",
+            "Trusted: canonical hashing of operation results.",
+            "DESIGN.md section 5 C17"),
+    "C18": ("exploration",
+            "metamorphic property-based testing: generated foreign-namespace insertions (elements named like standard ones, foreign attributes) must leave everything the reader reports unchanged",
+            "Randomised exploration of insertion positions, local names from the standard vocabulary, types and nesting; one known finding is matched by a causal signature so that other violations still surface.",
+            "Trusted: the insertion-point scanner (each modified XML is re-validated by e57ref's strict XML parser).",
+            "DESIGN.md section 5 C18"),
+    "C19": ("exploration",
+            "property-based testing: generated and bundled source files copied twice through the public API, round-trip and byte-identity (determinism) oracles",
+            "Randomised exploration of source files from two independent producers plus all bundled files; idempotence and determinism checked byte for byte.",
+            "Trusted: the copy routine uses only public API calls.",
+            "DESIGN.md section 5 C19"),
     "C11": ("exploration",
             "model-based (stateful) property testing: exhaustive operation histories to depth 4/5 over a 20-letter alphabet plus random histories, byte-vector reference model checked after every step",
             "Small-scope exhaustive core (all 20^4 writer histories, thorough 20^5) plus random histories up to 40 steps against a byte-vector model of the logical stream; reader histories over the resulting files.",
